@@ -171,6 +171,10 @@ class Exec:
         st.assume(z3.Not(z3.Select(al, r)))
         st.assume(z3.And(r != NONE, r != ABSENT, r != NOTIMPL))
         st.heap.set('$alloc', z3.Store(al, r, True))
+        if prefix == 'list':
+            st.assume(is_list(r))          # a freshly built list object is a list (and hence neither a tuple nor a dict)
+        elif prefix in ('dict', 'set'):
+            st.assume(is_dict(r))
         return r
 
     def truth(self, st, v):
